@@ -27,7 +27,14 @@ pub fn spec_for(seed: u64, index: u64) -> SysSpec {
         // of that failure cannot be an execution of the system
         return c02::probe_spec(index - c02::PROBE_BASE).expect("probe index out of range");
     }
-    sysgen::generate(seed, "C03", index, &gen_cfg())
+    {
+        let mut spec = sysgen::generate(seed, "C03", index, &gen_cfg());
+        // bad states over inputs only, tied to a counter by a constraint
+        if index % 11 == 5 {
+            sysgen::input_bad_state_constraint(&mut spec, index / 11, false);
+        }
+        spec
+    }
 }
 
 /// solver seeds are passed through PATH shims named `z3` / `cvc5` that exec the real binaries
